@@ -478,8 +478,8 @@ PARTIAL = [
     "the pgdb_* theorems assume the exact-arithmetic line search returns a positive step; float runs that end the search by underflow "
     "(alpha = 0, x_next = x_prev) are counted by the harness, not modelled",
     "selection_table, selection_keeps_installed, ple_eq_proj_of_lin are decision tables of the model (true by unfolding): their tie to "
-    "the code is the correspondence and the generated-table theorems; dykLoop with more than one sweep and projPhysical are not "
-    "executed by the driver (whole runs are executed for pgdbOptimize and fistaLoop only)",
+    "the code is the correspondence and the generated-table theorems; whole runs of pgdbOptimize, pgdmOptimize, fistaOptimize and projPhysical (all sweeps, "
+    "elementary projections replayed as recorded tables) are executed against the real classes, incl. the max_iteration = 0 error branch",
 ]
 
 
@@ -820,7 +820,7 @@ def corr_runs(ctx, drv, pend):
         mode = STOP_MODES[int(g.integers(0, 4))]
         nh = int(g.integers(1, 4))
         eps = float(g.choice([2.0 ** -6, 2.0 ** -12, 2.0 ** -30]))
-        max_it = int(g.choice([1, 2, 5, 200]))
+        max_it = int(g.choice([0, 1, 2, 5, 200, 200]))
         proj = lambda v: np.clip(v, lo, hi)  # noqa
         loss = SimpleQuadraticLossFunction(ref.copy())
         if rep % 2 == 0:
@@ -830,6 +830,11 @@ def corr_runs(ctx, drv, pend):
             try:
                 res, _ = L.quiet(L.PGDB(proj).optimize, loss, None, opt, on_iteration_history=True)
             except Exception as e:  # noqa
+                if max_it == 0 and isinstance(e, UnboundLocalError):
+                    # the loop body never ran: `k` is unbound after the loop -- the model's `none`
+                    pend.append(("pgdbrun", (n, "max_iteration=0"), "raises", drv.ask("pgdbrun", n, qlist(ref), qlist(x0), q(lo), q(hi), q(mu), q(gamma), q(eps), mode, nh, max_it)))
+                    ctx.case(("run0", rep)); ctx.count("whole runs with max_iteration = 0")
+                    continue
                 ctx.disagree("pgdbrun", (n, ref.tolist(), x0.tolist(), mu, gamma, eps, mode, nh, max_it), f"{type(e).__name__}: {e}", "a run")
                 continue
             i = drv.ask("pgdbrun", n, qlist(ref), qlist(x0), q(lo), q(hi), q(mu), q(gamma), q(eps), mode, nh, max_it)
@@ -843,6 +848,11 @@ def corr_runs(ctx, drv, pend):
             try:
                 res, _ = L.quiet(L.FISTA(proj).optimize, loss, None, opt, on_iteration_history=True)
             except Exception as e:  # noqa
+                if max_it == 0 and isinstance(e, UnboundLocalError):
+                    # the loop body never ran: `k` is unbound after the loop -- the model's `none`
+                    pend.append(("fistarun", (n, "max_iteration=0"), "raises", drv.ask("fistarun", n, qlist(ref), qlist(x0), q(lo), q(hi), q(delta), q(eps), mode, nh, max_it)))
+                    ctx.case(("run0", rep)); ctx.count("whole runs with max_iteration = 0")
+                    continue
                 ctx.disagree("fistarun", (n, ref.tolist(), x0.tolist(), delta, eps, mode, nh, max_it), f"{type(e).__name__}: {e}", "a run")
                 continue
             i = drv.ask("fistarun", n, qlist(ref), qlist(x0), q(lo), q(hi), q(delta), q(eps), mode, nh, max_it)
@@ -851,6 +861,79 @@ def corr_runs(ctx, drv, pend):
         ctx.case(("run", rep), nontrivial=res.k > 1, sample={"op": "whole run", "algo": "pgdb" if rep % 2 == 0 else "fista",
                                                               "mode": mode, "k": int(res.k), "limit": max_it})
         ctx.count(f"whole runs ended by {'limit' if res.k == max_it else 'rule'}")
+
+
+def corr_runs2(ctx, drv, pend):
+    """whole runs of the momentum class (clamp projection, quadratic loss bounded away from 0) through `pgdmLoop`, and whole runs of
+    the real `calc_proj_physical_with_var` through `projPhysical` with the two elementary projections replayed as recorded tables"""
+    from quara.loss_function.simple_quadratic_loss_function import SimpleQuadraticLossFunction
+    g = ctx.npgen(17)
+    for rep in range(12 if ctx.quick else 48):
+        n = [1, 4][rep % 2]                       # sqrt(n) exact: gamma = 1 / (2 r sqrt(n))
+        lo, hi = 0.0, 2.0
+        ref = hi + 0.25 + np.round(np.abs(g.normal(0, 1.5, n)) * 16) / 16      # outside the box: the loss never vanishes
+        x0 = np.clip(np.round(g.normal(1.0, 1.0, n) * 16) / 16, lo, hi)
+        mode = STOP_MODES[int(g.integers(0, 4))]
+        nh = int(g.integers(1, 4))
+        eps = float(g.choice([2.0 ** -6, 2.0 ** -12, 2.0 ** -30]))
+        max_it = int(g.choice([0, 1, 3, 40, 40]))
+        r_ = float(g.choice([1.0, 2.0, 4.0]))
+        proj = lambda v: np.clip(v, lo, hi)  # noqa
+        opt = L.PGDMO(var_start=x0.copy(), r=r_, eps=eps, mode_stopping_criterion_gradient_descent=mode,
+                      num_history_stopping_criterion_gradient_descent=nh, max_iteration_optimization=max_it)
+        try:
+            with np.errstate(all="ignore"):
+                res, _ = L.quiet(L.PGDM(proj).optimize, SimpleQuadraticLossFunction(ref.copy()), None, opt, on_iteration_history=True)
+        except Exception as e:  # noqa
+            if max_it == 0 and isinstance(e, UnboundLocalError):
+                pend.append(("pgdmrun", (n, "max_iteration=0"), "raises",
+                             drv.ask("pgdmrun", n, qlist(ref), qlist(x0), q(lo), q(hi), q(1 / (2 * r_ * np.sqrt(n))), q(0.95), q(eps), mode, nh, max_it)))
+                ctx.case(("run0m", rep)); ctx.count("whole runs with max_iteration = 0")
+                continue
+            ctx.disagree("pgdmrun", (n, ref.tolist(), x0.tolist(), r_, eps, mode, nh, max_it), f"{type(e).__name__}: {e}", "a run")
+            continue
+        gam = 1 / (2 * r_ * np.sqrt(n))
+        i = drv.ask("pgdmrun", n, qlist(ref), qlist(x0), q(lo), q(hi), q(gam), q(0.95), q(eps), mode, nh, max_it)
+        pend.append(("pgdmrun", (n, ref.tolist(), x0.tolist(), r_, eps, mode, nh, max_it),
+                     dict(k=res.k, x=np.array(res.value), errs=[float(e) for e in res.error_values], eps=eps, nh=nh, max_it=max_it,
+                          zeta=float(res.zeta[-1])), i))
+        ctx.case(("pgdmrun", rep), nontrivial=res.k > 1, sample={"op": "whole run", "algo": "pgdm", "mode": mode, "k": int(res.k)})
+        ctx.count(f"whole runs ended by {'limit' if res.k == max_it else 'rule'}")
+    # physical projection: all sweeps
+    for rep in range(8 if ctx.quick else 32):
+        kind = L.KINDS[rep % 4]
+        order = ["eq_ineq", "ineq_eq"][(rep // 4) % 2]
+        eps = [1e-10, 1e-6, 1e-4][int(g.integers(0, 3))]
+        qt, c, m = L.make_qt(g, kind, "1qubit", False, eps_proj_physical=eps)
+        si = qt.generate_empty_estimation_obj_with_setting_info()
+        si.set_mode_proj_order(order)
+        true = L.true_object(g, kind, c, m, "interior")
+        v = true.to_stacked_vector() + [0.05, 0.5][int(g.integers(0, 2))] * g.standard_normal(len(true.to_stacked_vector()))
+        max_it = int(g.choice([0, 1, 3, 60, 60]))
+        try:
+            (resx, h), _ = L.quiet(si.calc_proj_physical_with_var, v.copy(), on_para_eq_constraint=False, max_iteration=max_it,
+                                   is_iteration_history=True)
+        except UnboundLocalError:
+            if max_it != 0:
+                raise
+            pend.append(("dykrun", (kind, order, "max_iteration=0"), "raises",
+                         drv.ask("dykrun", len(v), order, q(eps), 0, qlist(v), "-", "-", "-", "-")))
+            ctx.case(("dyk0", rep)); ctx.count("whole projections with max_iteration = 0")
+            continue
+        nst = len(h["x"]) - 1
+        first_k = [np.array(h["x"][k]) + np.array(h["p"][k]) for k in range(nst)]
+        first_v = [np.array(h["y"][k + 1]) for k in range(nst)]
+        second_k = [np.array(h["y"][k + 1]) + np.array(h["q"][k]) for k in range(nst)]
+        second_v = [np.array(h["x"][k + 1]) for k in range(nst)]
+        eqk, eqv, ink, inv = (first_k, first_v, second_k, second_v) if order == "eq_ineq" else (second_k, second_v, first_k, first_v)
+        vs_ = lambda lst: ";".join(qlist(a_) for a_ in lst)  # noqa
+        i = drv.ask("dykrun", len(v), order, q(eps), max_it, qlist(v), vs_(eqk), vs_(eqv), vs_(ink), vs_(inv))
+        evs = [e for e in h["error_value"] if e is not None]
+        pend.append(("dykrun", (kind, order, eps, max_it, nst),
+                     dict(x=np.array(resx), stopped=nst < max_it, tight=any(near(e, eps, 0.5, 2.0) for e in evs), atlimit=nst == max_it,
+                          last=evs[-1] if evs else None, eps=eps), i))
+        ctx.case(("dykrun", rep), nontrivial=nst > 1, sample={"op": "whole projection", "kind": kind, "order": order, "sweeps": nst})
+        ctx.count(f"whole projections stopped={'criterion' if nst < max_it else 'limit'}")
 
 
 def near(a, b, lo=0.1, hi=10.0):
@@ -867,6 +950,7 @@ def correspondence(ctx):
     corr_algos(ctx, drv, pend)
     corr_lme(ctx, drv, pend)
     corr_runs(ctx, drv, pend)
+    corr_runs2(ctx, drv, pend)
     out = drv.run()
     skipped = 0
     for op, inp, impl, i in pend:
@@ -877,7 +961,26 @@ def correspondence(ctx):
         if op in ("select", "select-kept"):
             if rep not in impl:
                 ctx.disagree(op, inp, impl, rep)
-        elif op in ("pgdbrun", "fistarun"):
+        elif op in ("dykrun", "pgdbrun", "fistarun", "pgdmrun") and impl == "raises":
+            if rep != "none":
+                ctx.disagree(op, inp, "UnboundLocalError (max_iteration = 0)", rep[:200])
+        elif op == "dykrun":
+            d = impl
+            if rep == "none":
+                ctx.disagree(op, inp, "a result", rep); continue
+            t = rep.split()
+            ok = allclose(vec(t[0]), d["x"])
+            if not d["tight"]:
+                # at the limit the last sweep may or may not also satisfy the criterion: the model reports the criterion then
+                if d["atlimit"]:
+                    ok = ok and ((t[1] == "true") == (d["last"] is not None and d["last"] < d["eps"] and inp[4] >= 2))
+                else:
+                    ok = ok and (t[1] == "true") == d["stopped"]
+            else:
+                skipped += 1
+            if not ok:
+                ctx.disagree(op, inp, {"x": d["x"].tolist(), "stopped": d["stopped"]}, rep[:300])
+        elif op in ("pgdbrun", "fistarun", "pgdmrun"):
             d = impl
             if rep == "none":
                 ctx.disagree(op, inp, "a result", rep); continue
